@@ -350,7 +350,7 @@ def srvCb (size : Nat) (plus : Bool) (errAt : Option Nat) : Cb Acc := fun a o =>
     | .error _ => ({ a with offered := a.offered + 1 }, .err EIO)
 
 /-- one READDIR / READDIRPLUS request: new state, delivered entries or errno -/
-def read (H : Host) (st : St) (plus : Bool) (h size offset : Nat) (errAt : Option Nat) :
+def readReq (H : Host) (st : St) (plus : Bool) (h size offset : Nat) (errAt : Option Nat) :
     St × Except Nat (List Offer) :=
   let r := doReaddir H st plus h size offset (srvCb size plus errAt) ({} : Acc)
   match r.ret with
